@@ -392,6 +392,57 @@ def valid_ids(ctrls):
 
 def check_case(ctx, res, case, n_configs, n_hist, model=True):
     """drive the real code on one abstract case; oracles -> violations, model -> divergences"""
+    phase = ['construction']
+    try:
+        _check_case(ctx, res, case, n_configs, n_hist, model, phase)
+    except core.LeanError:
+        raise
+    except Exception as e:  # noqa: BLE001  (the real code raised on a valid catalog structure)
+        import traceback
+
+        tb = traceback.extract_tb(e.__traceback__)
+        site = next((f'{f.filename.split("/")[-1]}:{f.lineno} {f.name}' for f in reversed(tb) if '/biogeme/' in f.filename), '')
+        res.violate(f'the real code raises {type(e).__name__}: {str(e)[:200]} during {phase[0]} of a valid catalog structure', 
+                    {**case, 'phase': phase[0]}, f'{type(e).__name__} at {site}', 'no error', where='catalog machinery: ' + phase[0])
+
+
+TREE_OPS = ['free', 'fixed', 'variables', 'str', 'py_value', 'audit', 'draws', 'rv', 'panel', 'beta_values', 'embed_beta', 'count_panel']
+
+
+def tree_battery(e, db_):
+    """results of the tree operations a MultipleExpression delegates to its selected member"""
+    import biogeme.expressions as ex
+
+    T = ex.TypeOfElementaryExpression
+    out = {}
+
+    def get(key, f):
+        try:
+            out[key] = f()
+        except Exception as exc:  # noqa: BLE001
+            out[key] = 'raises ' + core.exc_kind(exc)
+
+    get('free', lambda: sorted(e.set_of_elementary_expression(T.FREE_BETA)))
+    get('fixed', lambda: sorted(e.set_of_elementary_expression(T.FIXED_BETA)))
+    get('variables', lambda: sorted(e.set_of_elementary_expression(T.VARIABLE)))
+    untag = lambda t: re.sub(r'\[[^\[\]:]*: [^\[\]]*\]', '', t)  # noqa: E731  ([catalog: member] shown by str())
+    get('str', lambda: untag(str(e)))
+    get('py_value', lambda: float(e.get_value()))
+    # errors only: the "chained comparison" *warning* is a syntactic hint on the direct operands (isinstance test), which a
+    # catalog hides; it does not change what the formula is or evaluates to
+    get('audit', lambda: [untag(m) for m in e.audit(db_)[0]])
+    get('draws', lambda: sorted(e.check_draws()))
+    get('rv', lambda: sorted(e.check_rv()))
+    get('panel', lambda: sorted(e.check_panel_trajectory()))
+    get('beta_values', lambda: sorted(e.get_beta_values().items()))
+    get('embed_beta', lambda: [bool(e.embed_expression(t)) for t in ('Beta', 'Variable', 'Times', 'UnaryMinus', 'Equal', 'Catalog')])
+    get('count_panel', lambda: e.count_panel_trajectory_expressions())
+    get('dict_beta', lambda: sorted(e.dict_of_elementary_expression(T.FREE_BETA)))
+    get('get_elem', lambda: [type(e.get_elementary_expression(n)).__name__ for n in BETAS + VARS])
+    return out
+
+
+def _check_case(ctx, res, case, n_configs, n_hist, model, phase):
     L = lib()
     ctrls = walk_ctrls(case['expr'], {})
     sizes = {n: len(s) for n, s in ctrls.items()}
@@ -408,6 +459,7 @@ def check_case(ctx, res, case, n_configs, n_hist, model=True):
 
     expr, cats = build_real(case)
     real = {}
+    phase[0] = 'enumeration (number_of_multiple_expressions / set_of_configurations / prepare_operators)'
     real['number'] = expr.number_of_multiple_expressions()
     conf_set = expr.set_of_configurations()
     real['configs'] = None if conf_set is None else sorted(c.get_string_id() for c in conf_set)
@@ -431,6 +483,7 @@ def check_case(ctx, res, case, n_configs, n_hist, model=True):
         res.diverge('configurations enumerated above the cap', case, None, len(real['configs']))
 
     # ---- iteration
+    phase[0] = 'iteration'
     visited = None
     if conf_set is not None:
         visited = []
@@ -442,6 +495,7 @@ def check_case(ctx, res, case, n_configs, n_hist, model=True):
                         where='SelectedExpressionsIterator')
 
     # ---- identifiers: round trip, listing order
+    phase[0] = 'identifier round trip'
     rng = ctx.rng
     id_reqs = []
     sample_cfgs = []
@@ -477,6 +531,7 @@ def check_case(ctx, res, case, n_configs, n_hist, model=True):
     for c in sample_cfgs:
         cfg = {s.controller: s.selection for s in c.selections}
         sid = c.get_string_id()
+        phase[0] = f'configure_catalogs({sid!r}) and evaluation'
         expr.configure_catalogs(c)
         now = expr.current_configuration().get_string_id()
         if now != sid:
@@ -489,21 +544,32 @@ def check_case(ctx, res, case, n_configs, n_hist, model=True):
                     f'catalog {node["name"]!r} governed by controller {node["ctrl"]!r} does not show the selected alternative',
                     {**case, 'config': sid}, shown, cfg[node['ctrl']], where='Controller.set_index / Catalog.selected')
         hw = hand_written(case['expr'], cfg, B)
-        v_real = [float(v) for v in expr.get_value_c(database=db_, prepare_ids=True)]
-        v_hand = [float(v) for v in hw.get_value_c(database=db_, prepare_ids=True)]
-        v_int = [hand_int(case['expr'], cfg, case['betas'], r) for r in case['rows']]
-        if v_real != v_hand or v_real != [float(v) for v in v_int]:
-            res.violate('the configured formula does not evaluate like the formula written out by hand', {**case, 'config': sid},
-                        v_real, {'hand_written_engine': v_hand, 'hand_written_integers': v_int}, where='MultipleExpression delegation')
         expr.prepare(db_, 0)
         hw.prepare(db_, 0)
         s_real = decode_signature(expr.get_signature())
         s_hand = decode_signature(hw.get_signature())
         # prepared ids never survive a reconfiguration in this stream (shape of known finding FC16d, probed separately)
         expr.set_id_manager(None)
+        v_int = [hand_int(case['expr'], cfg, case['betas'], r) for r in case['rows']]
         if s_real != s_hand:
             res.violate('the signature of the configured formula is not the signature of the hand-written formula', {**case, 'config': sid},
                         s_real, s_hand, where='MultipleExpression.get_signature')
+            v_real = None  # the engine is not given a formula that is already known to be wrong
+        else:
+            v_real = [float(v) for v in expr.get_value_c(database=db_, prepare_ids=True)]
+            v_hand = [float(v) for v in hw.get_value_c(database=db_, prepare_ids=True)]
+            if v_real != v_hand or v_real != [float(v) for v in v_int]:
+                res.violate('the configured formula does not evaluate like the formula written out by hand', {**case, 'config': sid},
+                            v_real, {'hand_written_engine': v_hand, 'hand_written_integers': v_int}, where='MultipleExpression delegation')
+        t_real, t_hand = tree_battery(expr, db_), tree_battery(hw, db_)
+        for key in t_real:
+            if t_real[key] != t_hand[key]:
+                res.violate(f'tree operation {key!r} of the configured formula differs from the hand-written formula', {**case, 'config': sid},
+                            t_real[key], t_hand[key], where='MultipleExpression delegation')
+                break
+        if t_hand.get('py_value') != 'raises BiogemeError' and isinstance(t_hand.get('py_value'), float):
+            if t_hand['py_value'] != float(hand_int(case['expr'], cfg, case['betas'], {v: 0 for v in VARS})) and not t_hand['variables']:
+                res.notes.append('python evaluation of a hand-written formula differs from integer arithmetic')
         shown_names = re.findall(r'\[([^\[\]:]*): ([^\[\]]*)\]', str(expr))
         sel_reqs.append((
             {'op': 'select', 'expr': lexpr, 'sels': [[a, b] for a, b in cfg.items()],
@@ -515,6 +581,7 @@ def check_case(ctx, res, case, n_configs, n_hist, model=True):
     # ---- operator histories (recorded random choices)
     hist_reqs = []
     names = sorted(ctrls)
+    phase[0] = 'operator histories'
     fake, restore = patched_random()
     try:
         for _ in range(n_hist):
@@ -525,7 +592,9 @@ def check_case(ctx, res, case, n_configs, n_hist, model=True):
             obs = []
             length = rng.randint(1, 20)
             for _i in range(length):
-                key = rng.choice(real['operators'])
+                family = rng.choice(['Increase ', 'Decrease ', 'Pair_', 'Increase_several', 'Decrease_several'])
+                pool = [o for o in real['operators'] if o.startswith(family)] or real['operators']
+                key = rng.choice(pool)
                 step = rng.choice([1, 1, 2, -1, 0, 3, -7, 12, rng.randint(-40, 40)])
                 rec = [rng.randint(0, 50) for _ in range(len(names) + 2)]
                 fake.record = rec
@@ -540,7 +609,7 @@ def check_case(ctx, res, case, n_configs, n_hist, model=True):
                     break
                 nid = new.get_string_id()
                 obs.append({'id': nid, 'ret': int(ret)})
-                res.tally('op:' + key.split(' ')[0].split('_')[0])
+                res.tally('op:' + (key if key.endswith('_several') else key.split(' ')[0].split('_')[0]))
                 if nid not in all_valid:
                     res.violate(f'operator {key!r} leaves the set of valid configurations', {**case, 'start': start_id, 'steps': steps},
                                 nid, 'one of the valid configurations', where='CentralController operators')
@@ -552,6 +621,7 @@ def check_case(ctx, res, case, n_configs, n_hist, model=True):
             k = rng.choice([1, 2, -3, 7, rng.randint(-30, 30)])
             c0 = L.Configuration([L.SelectionTuple(m, rng.choice(ctrls[m])) for m in names])
             for first, second in (('Increase', 'Decrease'), ('Decrease', 'Increase')):
+                phase[0] = f'{first} then {second} of controller {n!r} by {k} from {c0.get_string_id()!r}'
                 c1, _ = ops[f'{first} {n}'](c0, k)
                 c2, _ = ops[f'{second} {n}'](c1, k)
                 if c2.get_string_id() != c0.get_string_id():
@@ -604,7 +674,8 @@ def check_case(ctx, res, case, n_configs, n_hist, model=True):
             if a.get('current', {}).get('id') != obs['sid'] or not a.get('same') or not a.get('plain') or not a.get('valid'):
                 res.diverge('selection in the model', {**case, 'config': obs['sid']}, a, obs)
                 continue
-            if [float(v) if v is not None else None for v in a.get('values', [])] != obs['values'] or a.get('values') != a.get('values_sel'):
+            if obs['values'] is not None and (
+                    [float(v) if v is not None else None for v in a.get('values', [])] != obs['values'] or a.get('values') != a.get('values_sel')):
                 res.diverge('value of the selected formula', {**case, 'config': obs['sid']}, a.get('values'), obs['values'])
             if a.get('hand') != obs['sig']:
                 res.diverge('structure of the selected formula (decoded signature)', {**case, 'config': obs['sid']}, a.get('hand'), obs['sig'])
@@ -781,13 +852,22 @@ def seg_reference(beta, kept, B, ex):
 
 
 def check_helpers(ctx, res, n):
+    for _ in range(n):
+        case = {}
+        try:
+            _check_helper(ctx, res, case)
+        except Exception as e:  # noqa: BLE001
+            res.violate(f'the real code raises {type(e).__name__}: {str(e)[:200]} on a valid helper specification', dict(case), core.exc_kind(e),
+                        'no error', where='segmentation_catalogs / generic_alt_specific_catalogs')
+
+
+def _check_helper(ctx, res, case_out):
     import biogeme.expressions as ex
     from biogeme.catalog import segmentation_catalogs, generic_alt_specific_catalogs
     from biogeme.segmentation import DiscreteSegmentationTuple
 
-    L = lib()
     rng = ctx.rng
-    for _ in range(n):
+    for _ in range(1):
         nseg = rng.randint(1, 3)
         seg_vars = rng.sample(VARS, nseg)
         segs = []
@@ -813,6 +893,7 @@ def check_helpers(ctx, res, n):
                         vals[f'{nme}_{cat}'] = rng.randint(-3, 4)
         case = {'shape': 'helper', 'generic': 'G', 'betas': betas, 'segs': [[v, [list(m) for m in mp], r] for v, mp, r in segs], 'max': maxn,
                 'alts': alts if altspec else None, 'values': vals, 'rows': [{v: rng.choice([-1, 0, 1, 2, 3]) for v in VARS} for _ in range(4)]}
+        case_out.update(case)
         # every Beta created inside the helpers copies the initial value of the generic parameter it comes from; the values of the
         # derived parameters are therefore passed at evaluation time
         full = {'betas': vals, 'rows': case['rows']}
@@ -878,18 +959,19 @@ def check_helpers(ctx, res, n):
                             sorted(free_real), sorted(free_hand), where='segmentation_catalogs / generic_alt_specific_catalogs')
                 continue
             bv = {n: used[n] for n in free_real}
+            expr.prepare(db_, 0)
+            hw.prepare(db_, 0)
+            sig_r, sig_h = decode_signature(expr.get_signature()), decode_signature(hw.get_signature())
+            expr.set_id_manager(None)
+            if sig_r != sig_h:
+                res.violate('signature of the configured helper formula differs from the documented closed form', {**case, 'config': c.get_string_id()},
+                            sig_r, sig_h, where='segmentation_catalogs / generic_alt_specific_catalogs')
+                continue
             v_real = [float(v) for v in expr.get_value_c(database=db_, betas=bv, prepare_ids=True)]
             v_hand = [float(v) for v in hw.get_value_c(database=db_, betas=bv, prepare_ids=True)]
             if v_real != v_hand:
                 res.violate('configured helper formula does not evaluate like the documented closed form', {**case, 'config': c.get_string_id()},
                             v_real, v_hand, where='segmentation_catalogs / generic_alt_specific_catalogs')
-            expr.prepare(db_, 0)
-            hw.prepare(db_, 0)
-            if decode_signature(expr.get_signature()) != decode_signature(hw.get_signature()):
-                res.violate('signature of the configured helper formula differs from the documented closed form', {**case, 'config': c.get_string_id()},
-                            decode_signature(expr.get_signature()), decode_signature(hw.get_signature()),
-                            where='segmentation_catalogs / generic_alt_specific_catalogs')
-            expr.set_id_manager(None)
             res.tally('helper_configurations_evaluated')
 
 
@@ -1036,6 +1118,42 @@ def oracle_root(res, case):
     return bad
 
 
+def isolated_probes(payload):
+    """runs in a fresh interpreter (the probes hand formulas to the engine without a prior structural check)"""
+    import warnings
+
+    warnings.simplefilter('ignore')
+    out = {}
+    with core.scratch():
+        for key, fn, case in (('stale', oracle_stale, STALE_CASE), ('root', oracle_root, ROOT_CASE)):
+            r = Result()
+            try:
+                fn(r, case)
+            except Exception as e:  # noqa: BLE001
+                r.violate(f'the real code raises {type(e).__name__}: {str(e)[:200]}', case, core.exc_kind(e), 'no error',
+                          where=W_STALE if key == 'stale' else W_ROOT)
+            out[key] = r.violations
+    return out
+
+
+def run_probes(res):
+    for c in FINDING_CASES:
+        try:
+            oracle_shape(res, c)
+        except Exception as e:  # noqa: BLE001
+            res.violate(f'the real code raises {type(e).__name__}: {str(e)[:200]}', c, core.exc_kind(e), 'refusal or a sound catalog',
+                        where={'same_name': W_SAME, 'separator': W_SEP, 'dup_spec': W_DUP}[c['shape']])
+    out = core.run_isolated('props.c16', 'isolated_probes', {})
+    for key, case, where in (('stale', STALE_CASE, W_STALE), ('root', ROOT_CASE, W_ROOT)):
+        res.count(case, nontrivial=True)
+        res.tally('finding_shape:' + case['shape'])
+        if '__error__' in out:
+            res.violate(f'the interpreter running the probe died ({out["__error__"]}): the engine was handed an inconsistent formula', case,
+                        out.get('stderr', '')[-300:], 'a value', where=where)
+        else:
+            res.violations.extend(out.get(key, []))
+
+
 # --------------------------------------------------------------------------- check / search / replay
 
 CORPUS = [
@@ -1064,22 +1182,19 @@ CORPUS = [
 
 def check(ctx) -> Result:
     res = Result(rule=RULE, tolerance='exact (strings, integers; engine values are small integers)')
-    for c in FINDING_CASES:
-        oracle_shape(res, c)
-    oracle_stale(res, STALE_CASE)
-    oracle_root(res, ROOT_CASE)
+    run_probes(res)
     base = len(res.violations)  # the probes of the listed findings do not stop the stream
     for c in CORPUS:
         check_case(ctx, res, c, n_configs=ctx.n(12, 125), n_hist=ctx.n(2, 6))
         res.tally('corpus')
-    for _ in range(ctx.n(40, 700)):
+    for _ in range(ctx.n(150, 4000)):
         case = gen_case(ctx.rng)
         check_case(ctx, res, case, n_configs=ctx.n(16, 100), n_hist=ctx.n(2, 5))
         if len(res.violations) - base > 5:
             break
-    check_modify(ctx, res, ctx.n(150, 3000))
-    check_errors(ctx, res, ctx.n(60, 1500))
-    check_helpers(ctx, res, ctx.n(6, 80))
+    check_modify(ctx, res, ctx.n(300, 5000))
+    check_errors(ctx, res, ctx.n(100, 2000))
+    check_helpers(ctx, res, ctx.n(12, 200))
     ctx.batch.flush()
     return res
 
